@@ -37,6 +37,8 @@ pub struct Op {
     pub success: Ordering,
     /// failure ordering (compare-exchange only, otherwise `Relaxed`)
     pub failure: Ordering,
+    /// source location of the call (of the outermost `#[track_caller]` shim method)
+    pub site: &'static core::panic::Location<'static>,
 }
 
 /// Answer of `Hooks::before`.
@@ -118,8 +120,10 @@ impl AtomicU32 {
     }
 
     #[inline]
+    #[track_caller]
     fn op(&self, kind: OpKind, expect: u32, arg: u32, success: Ordering, failure: Ordering) -> Op {
         Op {
+            site: core::panic::Location::caller(),
             kind,
             addr: core::ptr::from_ref::<CoreAtomicU32>(&self.inner) as usize,
             expect,
@@ -129,6 +133,7 @@ impl AtomicU32 {
         }
     }
 
+    #[track_caller]
     pub fn load(&self, order: Ordering) -> u32 {
         if let Some(h) = hooks() {
             let op = self.op(OpKind::Load, 0, 0, order, Ordering::Relaxed);
@@ -141,6 +146,7 @@ impl AtomicU32 {
         self.inner.load(order)
     }
 
+    #[track_caller]
     pub fn store(&self, val: u32, order: Ordering) {
         if let Some(h) = hooks() {
             let op = self.op(OpKind::Store, 0, val, order, Ordering::Relaxed);
@@ -155,6 +161,7 @@ impl AtomicU32 {
         self.inner.store(val, order);
     }
 
+    #[track_caller]
     pub fn swap(&self, val: u32, order: Ordering) -> u32 {
         if let Some(h) = hooks() {
             let op = self.op(OpKind::Swap, 0, val, order, Ordering::Relaxed);
@@ -167,6 +174,7 @@ impl AtomicU32 {
         self.inner.swap(val, order)
     }
 
+    #[track_caller]
     pub fn fetch_add(&self, val: u32, order: Ordering) -> u32 {
         if let Some(h) = hooks() {
             let op = self.op(OpKind::FetchAdd, 0, val, order, Ordering::Relaxed);
@@ -179,6 +187,7 @@ impl AtomicU32 {
         self.inner.fetch_add(val, order)
     }
 
+    #[track_caller]
     pub fn fetch_sub(&self, val: u32, order: Ordering) -> u32 {
         if let Some(h) = hooks() {
             let op = self.op(OpKind::FetchSub, 0, val, order, Ordering::Relaxed);
@@ -193,6 +202,7 @@ impl AtomicU32 {
 
     /// # Errors
     /// The value found, if it differs from `current`.
+    #[track_caller]
     pub fn compare_exchange(
         &self,
         current: u32,
@@ -216,6 +226,7 @@ impl AtomicU32 {
 
     /// # Errors
     /// The value found, if it differs from `current` or the exchange failed spuriously.
+    #[track_caller]
     pub fn compare_exchange_weak(
         &self,
         current: u32,
@@ -250,6 +261,7 @@ impl AtomicU32 {
     /// Same algorithm as `core`: a load followed by a `compare_exchange_weak` loop.
     /// # Errors
     /// The value found, if `f` returned `None` for it.
+    #[track_caller]
     pub fn fetch_update<F>(
         &self,
         set_order: Ordering,
